@@ -338,6 +338,88 @@ def D15_forest_fold_stale_shape():
     return _cmp(f, [(2, 3, 4, 5), (2, 3, 4, 5)], [a, b])
 
 
+def D16_nchw_input_dtype_matches_plain():
+    """C12/C05: a layout-flagged export declares the same input/output element types as the plain export"""
+    import jax
+    f = lambda x: x * 2  # noqa: E731
+    for dt in (np.float16, np.float32, np.float64, np.int32):
+        for dbl in (False, True):
+            if dt is np.float64 and not dbl:
+                continue
+            spec = [jax.ShapeDtypeStruct((1, 2, 2, 3), dt)]
+            try:
+                plain = _export(f, spec, enable_double_precision=dbl)
+                flagged = _export(f, spec, inputs_as_nchw=[0], outputs_as_nchw=[0], enable_double_precision=dbl)
+            except Exception as e:
+                return True, f"export raised {type(e).__name__}"
+            tp = (plain.graph.input[0].type.tensor_type.elem_type, plain.graph.output[0].type.tensor_type.elem_type)
+            tf = (flagged.graph.input[0].type.tensor_type.elem_type, flagged.graph.output[0].type.tensor_type.elem_type)
+            if tp != tf:
+                return False, f"{np.dtype(dt).name} input, double={dbl}: plain export declares (in,out) element types {tp}, layout-flagged export declares {tf}"
+    return True, "flagged and plain exports declare the same element types"
+
+
+def C12_nchw_symbolic_dims():
+    """flagged export fed NCHW must return the NCHW version of the plain export's result, for programs
+    that read symbolic H/W/C at run time"""
+    import jax
+    jax_, jnp = _jax()
+
+    def f(x):
+        n = x.shape[1] * x.shape[2]
+        return x - jnp.sum(x, axis=(1, 2), keepdims=True) / n + x.shape[3] * 0.5 + x.shape[2] * 0.25
+
+    for dims in (("B", "H", "W", 3), ("B", "H", "W", "C"), (2, "H", 5, 3)):
+        spec = [jax.ShapeDtypeStruct(dims, np.float32)]
+        try:
+            plain = _export(f, spec)
+            flagged = _export(f, spec, inputs_as_nchw=[0], outputs_as_nchw=[0])
+        except Exception as e:
+            return True, f"export raised {type(e).__name__}: {str(e)[:100]}"
+        for shape in ((2, 4, 5, 3), (2, 7, 5, 3)):
+            x = np.random.default_rng(sum(shape)).standard_normal(shape).astype(np.float32)
+            try:
+                y_plain = _run(plain, [x])[0][0]
+                y_flag = _run(flagged, [np.transpose(x, (0, 3, 1, 2))])[0][0]
+            except Exception as e:
+                return False, f"dims {dims}, input {shape}: ORT failed: {str(e)[:200]}"
+            want = np.transpose(y_plain, (0, 3, 1, 2))
+            if y_flag.shape != want.shape or not np.allclose(y_flag, want, atol=1e-4):
+                return False, f"dims {dims}, input {shape}: flagged export differs from NCHW(plain export), max abs diff {float(np.max(np.abs(y_flag - want))) if y_flag.shape == want.shape else 'shape ' + str(y_flag.shape)}"
+    return True, "flagged == NCHW(plain) for symbolic H/W/C"
+
+
+def C05_output_order_family():
+    """results (a4d, b4d, c1d, d4d) under every ordered subset of outputs_as_nchw over the 4-D leaves:
+    output k must be leaf k (NCHW-transposed iff flagged)."""
+    import itertools
+    jax, jnp = _jax()
+    x = np.random.default_rng(11).standard_normal((2, 3, 4, 6)).astype(np.float32)
+
+    def f(x):
+        return x + 1.0, x * 2.0, jnp.sum(x, axis=(0, 1, 2)), x - 3.0
+    exp = [np.asarray(e) for e in f(jnp.asarray(x))]
+    n = 0
+    for r in (1, 2, 3):
+        for flags in itertools.permutations((0, 1, 3), r):
+            try:
+                model = _export(f, [(2, 3, 4, 6)], outputs_as_nchw=list(flags))
+            except Exception as e:
+                return True, f"export raised {type(e).__name__}"
+            try:
+                got, _ = _run(model, [x])
+            except Exception as e:
+                return False, f"outputs_as_nchw={list(flags)}: model failed in ORT: {str(e)[:200]}"
+            n += 1
+            if len(got) != 4:
+                return False, f"outputs_as_nchw={list(flags)}: {len(got)} outputs for 4 result leaves"
+            for k in range(4):
+                want = np.transpose(exp[k], (0, 3, 1, 2)) if k in flags else exp[k]
+                if tuple(got[k].shape) != tuple(want.shape) or not np.allclose(got[k], want, atol=1e-5):
+                    return False, f"outputs_as_nchw={list(flags)}: model output {k} is not result leaf {k} (shape {got[k].shape}, expected {want.shape})"
+    return True, f"{n} flag orders: every output is its own leaf"
+
+
 # ---------------------------------------------------------------- C13 (no jax needed)
 def C13_apply_patches_restores():
     """Exhaustive small family: spec lists of length <= 3 over 2 targets x 2 attrs
@@ -501,6 +583,9 @@ ALL = {
     "D9c": lambda: D9_allclose_narrowing("int_to_bool"),
     "D9d": lambda: D9_allclose_narrowing("f64_overflow"),
     "D15": D15_forest_fold_stale_shape,
+    "D16": D16_nchw_input_dtype_matches_plain,
+    "C05_output_order_family": C05_output_order_family,
+    "C12_nchw_symbolic_dims": C12_nchw_symbolic_dims,
 }
 
 if __name__ == "__main__":
